@@ -531,14 +531,14 @@ class Result:
             os.makedirs(os.path.join(VERIF, "replays"), exist_ok=True)
             classes = {}
             for v in self.violations:
-                k = " | ".join(str(v.get(f)) for f in ("why", "mode", "transport", "origin", "op", "leg", "executor", "mclass", "side", "framing", "proto", "variant", "has_rf", "has_flush", "has_big", "trailer", "fail", "wsmode", "role", "compress", "lenclass", "opclass", "shape", "async", "exec", "pending", "iomod", "tls", "slowread", "lastconn", "lastver", "bigresp") if v.get(f) is not None)
+                k = " | ".join(str(v.get(f)) for f in ("why", "mode", "transport", "origin", "op", "leg", "executor", "mclass", "side", "framing", "proto", "variant", "has_rf", "has_flush", "has_big", "trailer", "fail", "wsmode", "role", "compress", "lenclass", "opclass", "shape", "async", "exec", "pending", "iomod", "tls", "slowread", "lastconn", "lastver", "bigresp", "path", "end") if v.get(f) is not None)
                 classes[k] = classes.get(k, 0) + 1
             for k, n in sorted(classes.items(), key=lambda kv: -kv[1])[:30]:
                 print("  violation class x%d: %s" % (n, k))
             # write replays for a spread of classes, not only the first ones
             bycls = {}
             for v in self.violations:
-                k = " | ".join(str(v.get(f)) for f in ("why", "mode", "transport", "origin", "op", "leg", "executor", "mclass", "side", "framing", "proto", "variant", "has_rf", "has_flush", "has_big", "trailer", "fail", "wsmode", "role", "compress", "lenclass", "opclass", "shape", "async", "exec", "pending", "iomod", "tls", "slowread", "lastconn", "lastver", "bigresp") if v.get(f) is not None)
+                k = " | ".join(str(v.get(f)) for f in ("why", "mode", "transport", "origin", "op", "leg", "executor", "mclass", "side", "framing", "proto", "variant", "has_rf", "has_flush", "has_big", "trailer", "fail", "wsmode", "role", "compress", "lenclass", "opclass", "shape", "async", "exec", "pending", "iomod", "tls", "slowread", "lastconn", "lastver", "bigresp", "path", "end") if v.get(f) is not None)
                 bycls.setdefault(k, []).append(v)
             spread = []
             i = 0
